@@ -59,6 +59,8 @@ pub struct View<'a> {
 pub enum Choice {
     Go(usize),
     Env(usize),
+    /// the chooser expects something that has not happened yet: settle again after a short pause
+    Wait,
 }
 
 pub trait Chooser {
@@ -145,7 +147,7 @@ pub fn execute(
     defs: Vec<ActorDef>,
     chooser: &mut dyn Chooser,
     custom: &mut dyn FnMut(&str, &str),
-) -> Outcome {
+) -> (Outcome, Vec<Handle>) {
     let names: Vec<String> = defs.iter().map(|d| d.name.clone()).collect();
     let spec: Vec<(&str, bool)> = defs.iter().map(|d| (d.name.as_str(), d.is_co)).collect();
     ctl.begin(&opts.cats, &spec, opts.vclock);
@@ -293,12 +295,7 @@ pub fn execute(
                             unsafe { h.coroutine().cancel() };
                         }
                     }
-                    "tick" => {
-                        if let Some(t) = ctl.next_timer() {
-                            ctl.advance_clock(t);
-                            ctl.timer_quiet(300);
-                        }
-                    }
+                    "tick" => tick(ctl),
                     _ => {
                         if let Some(k2) = opts.custom_env.iter().position(|e| e.0 == what && e.1 == arg) {
                             custom_used[k2] = true;
@@ -306,6 +303,9 @@ pub fn execute(
                         custom(&what, &arg);
                     }
                 }
+            }
+            Some(Choice::Wait) => {
+                std::thread::sleep(Duration::from_millis(2));
             }
             None => {
                 if !ready.is_empty() {
@@ -315,15 +315,15 @@ pub fn execute(
                 }
                 // nobody at a point.  Virtual time may still help.
                 if opts.vclock && opts.auto_tick {
-                    if let Some(t) = ctl.next_timer() {
+                    if ctl.next_timer().is_some() {
                         schedule.push(Step::Env { what: "tick".into(), arg: String::new() });
-                        ctl.advance_clock(t);
-                        ctl.timer_quiet(300);
+                        ctl.log_env("tick", "", &names);
+                        tick(ctl);
                         nsteps += 1;
                         continue;
                     }
                 }
-                if st == Settled::Quiet && ctl.confirm_stuck(150) {
+                if st == Settled::Quiet && ctl.confirm_stuck(40) {
                     let g = ctl.lock();
                     let who = g
                         .actors
@@ -345,29 +345,57 @@ pub fn execute(
         let g = ctl.lock();
         g.actors.iter().map(|a| matches!(a.st, ASt::Finished(true))).collect()
     };
+    (Outcome { end, trace, names, schedule, diverged, panicked, notes }, handles)
+}
+
+/// after the oracle has looked at the outcome: open the gates, let `unstick` release actors that
+/// are blocked for ever (legitimately or not), join what finishes, leak the rest
+pub fn finish(ctl: &'static Ctrl, out: &Outcome, mut handles: Vec<Handle>, unstick: &mut dyn FnMut()) {
     ctl.end();
-    // join what can be joined
-    if matches!(end, End::Finished) {
-        for h in handles.iter_mut() {
-            match h {
-                Handle::Thread(t) => {
-                    if let Some(t) = t.take() {
-                        let _ = t.join();
-                    }
+    if !matches!(out.end, End::Finished) {
+        unstick();
+        let t0 = std::time::Instant::now();
+        loop {
+            let all = handles.iter().all(|h| match h {
+                Handle::Thread(Some(t)) => t.is_finished(),
+                Handle::Co(Some(c)) => c.is_done(),
+                _ => true,
+            });
+            if all || t0.elapsed() > Duration::from_millis(300) {
+                break;
+            }
+            std::thread::sleep(Duration::from_millis(1));
+        }
+    }
+    for h in handles.iter_mut() {
+        match h {
+            Handle::Thread(t) => {
+                if t.as_ref().map_or(false, |t| matches!(out.end, End::Finished) || t.is_finished()) {
+                    let _ = t.take().unwrap().join();
                 }
-                Handle::Co(c) => {
-                    if let Some(c) = c.take() {
-                        let _ = c.join();
-                    }
+            }
+            Handle::Co(c) => {
+                if c.as_ref().map_or(false, |c| matches!(out.end, End::Finished) || c.is_done()) {
+                    let _ = c.take().unwrap().join();
                 }
             }
         }
-    } else {
-        // leak stuck actors; give the runtime a moment
-        std::thread::sleep(Duration::from_millis(5));
-        std::mem::forget(handles);
     }
-    Outcome { end, trace, names, schedule, diverged, panicked, notes }
+    std::mem::forget(handles);
+}
+
+/// advance virtual time to the next pending deadline, repeatedly, until a timer really fires
+/// (stale entries of timers that were removed in the meantime do not count) or none is pending
+pub fn tick(ctl: &'static Ctrl) {
+    let before = ctl.lock().fired;
+    for _ in 0..64 {
+        let Some(t) = ctl.next_timer() else { break };
+        ctl.advance_clock(t);
+        ctl.timer_quiet(300, before);
+        if ctl.lock().fired != before {
+            break;
+        }
+    }
 }
 
 // ---------------------------------------------------------------------------------------------
@@ -375,6 +403,7 @@ pub fn execute(
 
 /// follows a TLC behaviour; after exhaustion or divergence drains round-robin
 pub struct Replay {
+    pub waits: usize,
     pub steps: Vec<Step>,
     pub pos: usize,
     pub div: Option<(usize, String)>,
@@ -384,7 +413,7 @@ pub struct Replay {
 
 impl Replay {
     pub fn new(steps: Vec<Step>) -> Self {
-        Replay { steps, pos: 0, div: None, rr: 0, strict: true }
+        Replay { waits: 0, steps, pos: 0, div: None, rr: 0, strict: true }
     }
     fn diverge(&mut self, why: String) {
         if self.div.is_none() {
@@ -416,9 +445,17 @@ impl Chooser for Replay {
                                 }
                             }
                             self.pos += 1;
+                            self.waits = 0;
                             return Some(Choice::Go(ai));
                         }
                         None => {
+                            // asynchronous parts of the runtime (timer thread, worker wake-up) may
+                            // need a moment: retry a few times before calling it a divergence
+                            if self.div.is_none() && self.waits < 40 && !v.finished[ai] {
+                                self.waits += 1;
+                                return Some(Choice::Wait);
+                            }
+                            self.waits = 0;
                             self.diverge(format!(
                                 "{actor} expected at {} but is not at a point",
                                 site.clone().unwrap_or_default()
